@@ -8,6 +8,6 @@ for d in seeded/*/; do
   tools/mutant.sh $d/patch.diff $prop quick > /tmp/st.out 2>&1
   rc=$(grep -o 'exit=[0-9]*' /tmp/st.out | head -1)
   secs=$(grep -o 'secs=[0-9]*' /tmp/st.out | head -1)
-  fams=$(grep -o 'family=[A-Za-z0-9_:]*' /tmp/mutant.err | sort | uniq -c | awk '{printf "%s(%s) ", $2, $1}' | sed 's/family=//g')
+  fams=$(grep -a -o 'family=[A-Za-z0-9_:]*' /tmp/mutant.err | sort | uniq -c | awk '{printf "%s(%s) ", $2, $1}' | sed 's/family=//g')
   echo -e "$id\t$prop\t$rc\t$secs\t$fams" | tee -a $OUT
 done
